@@ -9,6 +9,8 @@ import (
 
 var triviaChoices = []string{"", "", " ", " ", "  ", "\t", "\n", "\r\n", " ;c\n", ";x y [ ] { } _ /\n", "\n\n ", " ; ♯ comment ♭ \n\t", ";a\n;b\n", " ;a\n  ;b\n;c\n", "\r", "\f", "\u00a0", "\u3000 ",
 	// comment bodies with tabs, control characters, CR and other blanks followed by chord-like text
+	// comments without text (the comment ends at its own line break, whatever follows)
+	";\n", " ; \t\n", ";\r\n", ";\n;\n\n", "\n;\n", ";;\n",
 	";was:\tD_7[2]\n", " ;\x01\x7f ctl E[1]\n", "; nb\u00a0sp F[1]{a=b}\n", ";cr\rC[9]\n", ";\u2028ls G[1]\n", ";\x00nul A[1]\n"}
 
 var metaLexemes = []string{";-)", ";k", "７", "k", "key", "Am", "txt", "a b", "x;y", "120", "v w  x", "5/4", "ff", "日本語", "tail ", "semi;colon", "new\nline", "[1]", "C_7/E", "-", "é😀", "#", "b"}
@@ -160,8 +162,8 @@ func joinTokens(toks []grammar.Token, r *rand.Rand, trivia bool) string {
 	}
 	if trivia && r != nil {
 		// leading and trailing trivia (a comment at the very end with and without newline)
-		lead := []string{"", " ", "\n", ";lead\n", "\t\t"}[r.Intn(5)]
-		trail := []string{"", " ", "\n", " ;end\n", ";end", "\n\n"}[r.Intn(6)]
+		lead := []string{"", " ", "\n", ";lead\n", "\t\t", ";\n", " ;\n\n"}[r.Intn(7)]
+		trail := []string{"", " ", "\n", " ;end\n", ";end", "\n\n", ";", " ;\n", ";\n\n"}[r.Intn(9)]
 		if cand := lead + s + trail; sameTokens(grammar.Tokenize([]byte(cand)).Tokens, toks) {
 			s = cand
 		}
